@@ -184,7 +184,7 @@ RULES = [
 ]
 
 MANIFEST = {
-    "text": "Static protocol decision valid for every user implementation by parametricity: unique call sites of T::from_str and PurlShape::finish (whole-crate search over resolved/unresolved callees), loop-freedom, dominance (guard before conversion, conversion before build, hook before every Ok), argument identity as region terms, residual types of the `?` conversions read from the callee's generic arguments, and the whitelist of accesses to the parts after the hook.",
+    "text": "Static protocol decision valid for every user implementation by parametricity: unique call sites of T::from_str and PurlShape::finish (whole-crate search over resolved/unresolved callees), loop-freedom, dominance (guard before conversion, conversion before build, hook before every Ok), argument identity as region terms, residual types of the `?` conversions read from the callee's generic arguments, and the whitelist of accesses to the parts after the hook. As built, also: the guard in front of the conversion admits exactly the type alphabet [0-9A-Za-z.+-] (computed from the predicate), build() has exactly one exit that hands the hook's error on, and the removal of empty values precedes the checksum read.",
     "note": "Trusted: rustc type checking and MIR, extractor. Nothing is assumed about user impls. Not decided: behaviour of user impls themselves.",
     "technique": "call-site uniqueness + dominance (typestate-like once/never-before/only-after protocol) over MIR; generic-argument inspection of `?` conversions; effect whitelist",
     "design_ref": "DESIGN.md 5.14",
